@@ -1,5 +1,6 @@
 """C10 — no message from a peer can terminate the client (DESIGN §5 C10)."""
 import os
+import json
 import re
 from engine.rules import Inconclusive, atxt
 from engine import panics, mir
@@ -33,6 +34,66 @@ def collect(ctx, entry_names):
     return bodies, tops, T, Dz
 
 
+
+SITES_REF = os.path.join(os.path.dirname(os.path.abspath(__file__)), 'C10_sites_reference.json')
+_EX = {}
+
+
+def _exits(P, body):
+    from engine.exits import Exits
+    e = _EX.get(id(body))
+    if e is None:
+        e = _EX[id(body)] = Exits(P, body)
+    return e
+
+
+def prov_sig(P, s):
+    """Name-free signature of an abort site: its kind and, per operand, the leaves (callee keys, constants, parameters, fields,
+    arithmetic) of how the operand is computed — the same for `diff - 2` and `start - cached - 2` with `diff` inlined or renamed."""
+    from engine import facts
+    if not s.operands:
+        return None
+    X = _exits(P, s.body)
+    ops = []
+    for o in s.operands:
+        try:
+            ops.append(sorted(facts.leaves(X.val(o))))
+        except RecursionError:
+            ops.append(['?'])
+    return [s.kind, re.sub(r'\(.*$', '', str(s.sub)) if s.kind == 'libcall' else str(s.sub), ops]
+
+
+def cmp_sig(P, body, bid, i):
+    from engine import facts
+    st = body.blocks[bid].stmts[i]
+    m = re.match(r'^(Eq|Ne|Lt|Le|Gt|Ge)\((.*), (.*)\)$', st.rhs.strip())
+    if not m:
+        return None
+    X = _exits(P, body)
+    a, b = sorted(facts.leaves(X.val(m.group(2)))), sorted(facts.leaves(X.val(m.group(3))))
+    op = m.group(1)
+    if op in ('Eq', 'Ne'):
+        return ['eq', sorted([a, b])[0], sorted([a, b])[1]]
+    if op in ('Lt', 'Ge'):
+        return ['lt', a, b]
+    return ['lt', b, a]
+
+
+def _sig_sim(x, y):
+    from engine import facts
+    if x is None or y is None or x[0] != y[0] or x[1] != y[1] or len(x[2]) != len(y[2]):
+        return False
+    return all(facts._sim(frozenset(a), frozenset(b)) for a, b in zip(x[2], y[2]))
+
+
+def _cmp_sim(x, y):
+    from engine import facts
+    if x is None or y is None or x[0] != y[0]:
+        return False
+    f = lambda u, v: facts._sim(frozenset(u), frozenset(v))
+    return (f(x[1], y[1]) and f(x[2], y[2])) or (x[0] == 'eq' and f(x[1], y[2]) and f(x[2], y[1]))
+
+
 _SWAP = {'Lt': 'Gt', 'Gt': 'Lt', 'Le': 'Ge', 'Ge': 'Le', 'Eq': 'Eq', 'Ne': 'Ne'}
 
 
@@ -41,7 +102,7 @@ def _same_cmp(op, a, b, val):
     return '%s(%s, %s)' % (op, a, b) == val or (op in _SWAP and '%s(%s, %s)' % (_SWAP[op], b, a) == val)
 
 
-def requires_hold(ctx, Dz, s, requires):
+def requires_hold(ctx, Dz, s, requires, cmp_sigs=None, found=None):
     """every required fact dominates the site block"""
     P = ctx.prog
     body = s.body
@@ -110,8 +171,13 @@ def requires_hold(ctx, Dz, s, requires):
                             ok = True
             elif kind == 'cmp':
                 for (bid, i, op, a, bb) in Dz.cmps(b):
-                    if not _same_cmp(op, a, bb, val):
+                    if cmp_sigs is not None:
+                        if not _cmp_sim(cmp_sig(P, b, bid, i), cmp_sigs.get(r)):
+                            continue
+                    elif not _same_cmp(op, a, bb, val):
                         continue
+                    if found is not None and r not in found:
+                        found[r] = cmp_sig(P, b, bid, i)
                     if c.dominates(bid, blk):
                         ok = True
                         break
@@ -127,6 +193,13 @@ def requires_hold(ctx, Dz, s, requires):
         if not ok:
             missing.append(r)
     return missing
+
+
+_GEN = {} if os.environ.get('VERIF_C10_GEN') else None
+try:
+    _SITES_REF = json.load(open(SITES_REF)) if _GEN is None and os.path.exists(SITES_REF) else {}
+except ValueError:
+    _SITES_REF = {}
 
 
 def decide_sites(ctx, rule, sites, Dz, all_wire=False):
@@ -158,7 +231,30 @@ def decide_sites(ctx, rule, sites, Dz, all_wire=False):
             used_entries.add(hit[0])
             counts['table'] += 1
             ctx.ob(rule, s.body.name, s.desc, True, at=s.span, discharge='reviewed-table', why=hit[1])
+            if _GEN is not None:
+                fnd = {}
+                requires_hold(ctx, Dz, s, TABLE[hit[0]][3], found=fnd)
+                _GEN.setdefault(top, []).append({'sig': prov_sig(P, s), 'rx': TABLE[hit[0]][1], 'fn': TABLE[hit[0]][0], 'cmp': fnd})
             continue
+        if True:
+            # no entry matches the descriptor (or the facts its entry requires are written with names that changed) (it is written in source variable names): the same site after a rename / an inlined or
+            # extracted intermediate variable has the same provenance signature as a reviewed site of this function; its entry
+            # applies if the facts it requires still guard the site (comparisons identified by provenance as well)
+            sg = prov_sig(P, s)
+            for ent in (_SITES_REF.get(top, []) if sg else []):
+                if not _sig_sim(sg, ent['sig']):
+                    continue
+                idx = next((i for i, e in enumerate(TABLE) if e[0] == ent['fn'] and e[1] == ent['rx']), None)
+                if idx is None:
+                    continue
+                if not requires_hold(ctx, Dz, s, TABLE[idx][3], cmp_sigs=ent.get('cmp') or {}):
+                    hit = (idx, TABLE[idx][2])
+                    break
+            if hit:
+                used_entries.add(hit[0])
+                counts['table'] += 1
+                ctx.ob(rule, s.body.name, s.desc, True, at=s.span, discharge='reviewed-table (site identified by provenance)', why=hit[1])
+                continue
         counts['violation'] += 1
         ctx.ob(rule, s.body.name, s.desc, False, at=s.span, kind=s.kind, precondition=s.precond,
                missing_required_facts=miss,
@@ -207,6 +303,9 @@ def run(ctx):
     decode_discipline(ctx)
     total_difficulty_invariant(ctx)
     shape_rule(ctx)
+    if _GEN is not None:
+        json.dump(_GEN, open(SITES_REF, 'w'), indent=0, sort_keys=True)
+        ctx.note('C10 site reference regenerated: %d functions' % len(_GEN))
 
 
 def decode_discipline(ctx):
